@@ -1,92 +1,90 @@
 import AsynqModel.Lib.CacheKw
 import AsynqModel.Proofs.CacheKw
 /-!
-# C13, open signatures: functions that collect further keyword arguments (`**opts`), tuple-valued positional arguments
+# C13, open signatures: functions that collect further keyword arguments (`**opts`), tuple-valued positional arguments,
+# positional-only parameters
 
-`def f(a, b=0, *rest, k=0, **opts)` / `def h(a, b=0, *, k=0, **opts)` under alru_cache (default key) and
-acached_per_instance.  A positional value may be the 2-tuple `(name, value)` - exactly what `get_args_tuple` appends for a
-keyword it does not know - so "calls whose arguments differ in any parameter never receive each other's values" now
-depends on the default key being a PAIR (named parameters + `**opts` items, `*rest`), `_args_cache_key` of tools.py.
+`def f(a, b=0, *rest, k=0, **opts)` / `def h(a, b=0, *, k=0, **opts)` / `def g(a, b=0, /, c=0, **opts)` under alru_cache
+(default key) and acached_per_instance.  A positional value may be the 2-tuple `(name, value)` - exactly what
+`get_args_tuple` appends for a keyword it does not know - so "calls whose arguments differ in any parameter never receive
+each other's values" depends on the default key being a PAIR (named parameters + `**opts` items, `*rest`),
+`_args_cache_key` of tools.py.  `po` = the number of positional-only parameters (0 = none).
 
 * `C13_open_key_normal`, `C13_open_refkey_injective`, `C13_open_key_injective`: for every such signature and any two valid
-  calls, however spelled, the keys as written are equal exactly when the calls bind the same normalised arguments;
+  calls, however spelled, in which no keyword is named like a positional-only parameter (`poClean`), the keys as written
+  are equal exactly when the calls bind the same normalised arguments;
 * `C13_alru_open_signature_refines`, `C13_per_instance_open_signature_refines_partial`: refinement to the reference cache
-  (the observers `Alru.spec` / `PerInst.spec` of Lib/Cache.lean) for every history;
+  (the observers `Alru.spec` / `PerInst.spec` of Lib/Cache.lean) for every history of such calls;
+* `C13_open_posonly_counterexample`: the property is FALSE of the code as it is for a valid call with a keyword named like
+  a positional-only parameter (OPEN FINDING: `g(1, a=2)`, `g(1, a=3)`, `g(1)` share one entry for `def g(a, /, **opts)`);
+  `C13_open_posonly_repaired_key`: the structured key of proposed-fixes/C13-posonly-cache-key.diff tells them apart;
 * `C13_open_flat_key_counterexample`: the flat concatenation is NOT such a key; `C13_open_callOK_needed`.
 -/
 namespace AsynqModel.Cache
 
 /-- for EVERY signature with `**opts` (with or without `*rest`, `pos` = the named positional parameters) and EVERY valid
     spelling of a call - positional values that are `(name, value)` tuples included - the default key as written in
-    tools.py is the reference key of the call's normalised arguments -/
-theorem C13_open_key_normal (s : Sig) (pos : List Name) (c : Call) (n : Norm)
-    (h : openNorm s.varargs pos s.kwonly (kwargsDefaults s) c = some n) :
-    openKey s pos c = some (normKey s.varargs n) :=
-  openKey_of_norm s pos c n h
+    tools.py is the reference key of the call's normalised arguments - PROVIDED no keyword of the call is named like one of
+    the `po` positional-only parameters (needed: `C13_open_posonly_counterexample`) -/
+theorem C13_open_key_normal (s : Sig) (po : Nat) (pos : List Name) (c : Call) (n : Norm)
+    (hc : poClean po pos c = true)
+    (h : openNorm s.varargs po pos s.kwonly (kwargsDefaults s) c = some n) :
+    openKey s pos c = some (normKey s.varargs n) := by
+  rw [openNorm_of_clean _ _ _ _ _ _ hc] at h
+  exact openKey_of_norm s pos c n h
 
 /-- the reference key is an injective image of the normalised arguments: two valid calls of one function have the same
-    reference key only if they bind every named parameter, `*rest` and `**opts` to the same values -/
-theorem C13_open_refkey_injective (s : Sig) (pos : List Name) (c1 c2 : Call) (n1 n2 : Norm)
-    (h1 : openNorm s.varargs pos s.kwonly (kwargsDefaults s) c1 = some n1)
-    (h2 : openNorm s.varargs pos s.kwonly (kwargsDefaults s) c2 = some n2) :
+    reference key only if they bind every named parameter, `*rest` and `**opts` to the same values (for every number `po`
+    of positional-only parameters, no `poClean` needed: this is a statement about the reference) -/
+theorem C13_open_refkey_injective (s : Sig) (po : Nat) (pos : List Name) (c1 c2 : Call) (n1 n2 : Norm)
+    (h1 : openNorm s.varargs po pos s.kwonly (kwargsDefaults s) c1 = some n1)
+    (h2 : openNorm s.varargs po pos s.kwonly (kwargsDefaults s) c2 = some n2) :
     normKey s.varargs n1 = normKey s.varargs n2 ↔ n1 = n2 := by
   constructor
   · intro h
     apply normKey_inj s.varargs n1 n2 _ _ h
-    · rw [openNorm_named_length _ _ _ _ _ _ h1, openNorm_named_length _ _ _ _ _ _ h2]
+    · rw [openNorm_named_length _ _ _ _ _ _ _ h1, openNorm_named_length _ _ _ _ _ _ _ h2]
     · intro hv
-      -- without `*rest` a valid call has no overflow
-      have rest_nil : ∀ (c : Call) (n : Norm), openNorm s.varargs pos s.kwonly (kwargsDefaults s) c = some n → n.rest = [] := by
-        intro c n hn
-        unfold openNorm at hn
-        rw [hv] at hn
-        split at hn
-        · contradiction
-        · rename_i hlt
-          split at hn
-          · contradiction
-          · cases hb : bindRest c.kwargs (kwargsDefaults s) (pos.drop c.args.length ++ s.kwonly) with
-            | none => simp [hb] at hn
-            | some vs =>
-              simp [hb] at hn
-              subst hn
-              simp only [Bool.not_false, Bool.true_and, decide_eq_true_eq] at hlt
-              exact List.drop_of_length_le (by omega)
-      rw [rest_nil c1 n1 h1, rest_nil c2 n2 h2]
+      rw [hv] at h1 h2
+      rw [openNorm_rest_nil _ _ _ _ _ _ h1, openNorm_rest_nil _ _ _ _ _ _ h2]
   · intro h; rw [h]
 
 /-- "calls whose arguments differ in any parameter never receive each other's values", open signatures: the keys AS
     WRITTEN of two valid calls are equal exactly when their normalised arguments are (injective and spelling-insensitive).
-    `f(1, x=2)` and `f(1, ('x', 2))` differ (`**opts` vs `*rest`), so do `f(1, ('x', 2), x=2)` and both of them. -/
-theorem C13_open_key_injective (s : Sig) (pos : List Name) (c1 c2 : Call) (n1 n2 : Norm)
-    (h1 : openNorm s.varargs pos s.kwonly (kwargsDefaults s) c1 = some n1)
-    (h2 : openNorm s.varargs pos s.kwonly (kwargsDefaults s) c2 = some n2) :
+    `f(1, x=2)` and `f(1, ('x', 2))` differ (`**opts` vs `*rest`), so do `f(1, ('x', 2), x=2)` and both of them.
+    Hypothesis `poClean` for both calls: FALSE without it (`C13_open_posonly_counterexample`). -/
+theorem C13_open_key_injective (s : Sig) (po : Nat) (pos : List Name) (c1 c2 : Call) (n1 n2 : Norm)
+    (hc1 : poClean po pos c1 = true) (hc2 : poClean po pos c2 = true)
+    (h1 : openNorm s.varargs po pos s.kwonly (kwargsDefaults s) c1 = some n1)
+    (h2 : openNorm s.varargs po pos s.kwonly (kwargsDefaults s) c2 = some n2) :
     openKey s pos c1 = openKey s pos c2 ↔ n1 = n2 := by
-  rw [C13_open_key_normal s pos c1 n1 h1, C13_open_key_normal s pos c2 n2 h2]
+  rw [C13_open_key_normal s po pos c1 n1 hc1 h1, C13_open_key_normal s po pos c2 n2 hc2 h2]
   constructor
-  · intro h; exact (C13_open_refkey_injective s pos c1 c2 n1 n2 h1 h2).mp (Option.some.inj h)
+  · intro h; exact (C13_open_refkey_injective s po pos c1 c2 n1 n2 h1 h2).mp (Option.some.inj h)
   · intro h; rw [h]
 
 /-- alru_cache, default key, a function with `**opts`: for every signature, every maxsize ≥ 1 and EVERY history of calls
     each of which is valid (any spelling, tuple-valued positional arguments included) or fails in the key construction
-    ("Missing argument"), the observations of the model are accepted by `Alru.spec` keyed on the normalised arguments -/
-theorem C13_alru_open_signature_refines (s : Sig) (cap : Nat) (hcap : 1 ≤ cap) (ops : List Alru.Op)
-    (h : ∀ op ∈ ops, openCallOK s s.args op.c = true) :
-    Alru.spec (alruOpenRefKey s) (alruOpenBind s) cap ops
-      (Alru.run (alruOpenKey s) (alruOpenBind s) (Alru.init cap) ops) = true := by
-  obtain ⟨w', hw⟩ := Alru.watchRun_ok (alruOpenKey s) (alruOpenRefKey s) (alruOpenBind s) cap hcap ops _ _
-    (Alru.rel_init cap) (fun op ho => open_agree s s.args op.c (h op ho))
+    ("Missing argument"), the observations of the model are accepted by `Alru.spec` keyed on the normalised arguments.
+    `po` positional-only parameters: `openCallOK` excludes the valid calls that carry a keyword named like one of them
+    (the open finding, `C13_open_posonly_counterexample`); with `po = 0` nothing is excluded on that account -/
+theorem C13_alru_open_signature_refines (s : Sig) (po : Nat) (cap : Nat) (hcap : 1 ≤ cap) (ops : List Alru.Op)
+    (h : ∀ op ∈ ops, openCallOK s po s.args op.c = true) :
+    Alru.spec (alruOpenRefKey s po) (alruOpenBind s po) cap ops
+      (Alru.run (alruOpenKey s) (alruOpenBind s po) (Alru.init cap) ops) = true := by
+  obtain ⟨w', hw⟩ := Alru.watchRun_ok (alruOpenKey s) (alruOpenRefKey s po) (alruOpenBind s po) cap hcap ops _ _
+    (Alru.rel_init cap) (fun op ho => alru_open_agree s po op.c (h op ho))
   simp [Alru.spec, hw]
 
 /-- acached_per_instance, a method with `**opts`: the same, for every history of calls and instance drops in which no
     body returns a value that refers to its instance (the open finding `C13_per_instance_leak_counterexample`) -/
-theorem C13_per_instance_open_signature_refines_partial (s : Sig) (ops : List PerInst.Op)
-    (h : ∀ i c r sr, PerInst.Op.call i c r sr ∈ ops → openCallOK s (s.args.drop 1) c = true)
+theorem C13_per_instance_open_signature_refines_partial (s : Sig) (po : Nat) (ops : List PerInst.Op)
+    (h : ∀ i c r sr, PerInst.Op.call i c r sr ∈ ops → openCallOK s po (s.args.drop 1) c = true)
     (hsr : PerInst.noSelfRef ops = true) :
-    PerInst.spec (perInstOpenRefKey s) (perInstOpenBind s) ops
-      (PerInst.run (perInstOpenKey s) (perInstOpenBind s) PerInst.init ops) = true := by
-  obtain ⟨w', hw⟩ := PerInst.watchRun_ok_eq (perInstOpenKey s) (perInstOpenRefKey s) (perInstOpenBind s) ops _ _
-    PerInst.rel_init (fun i c r sr ho => ⟨open_agree s (s.args.drop 1) c (h i c r sr ho), by
+    PerInst.spec (perInstOpenRefKey s po) (perInstOpenBind s po) ops
+      (PerInst.run (perInstOpenKey s) (perInstOpenBind s po) PerInst.init ops) = true := by
+  obtain ⟨w', hw⟩ := PerInst.watchRun_ok_eq (perInstOpenKey s) (perInstOpenRefKey s po) (perInstOpenBind s po) ops _ _
+    PerInst.rel_init (fun i c r sr ho => ⟨perInst_open_agree s po c (h i c r sr ho), by
       have := List.all_eq_true.mp hsr _ ho
       simpa using this⟩)
   simp [PerInst.spec, hw]
@@ -102,25 +100,100 @@ def sgOpen : Sig := ⟨[1], [], [], [], true⟩
 theorem C13_open_flat_key_counterexample :
     flatKey sgOpen [1] ⟨[1], [(10, 2)]⟩ = flatKey sgOpen [1] ⟨[1, 2002], []⟩ ∧
       openKey sgOpen [1] ⟨[1], [(10, 2)]⟩ ≠ openKey sgOpen [1] ⟨[1, 2002], []⟩ ∧
-      openNorm true [1] [] [] ⟨[1], [(10, 2)]⟩ ≠ openNorm true [1] [] [] ⟨[1, 2002], []⟩ ∧
-      Alru.specClause (alruOpenRefKey sgOpen) (alruOpenBind sgOpen) 4 [⟨⟨[1], [(10, 2)]⟩, false⟩, ⟨⟨[1, 2002], []⟩, false⟩]
-        (Alru.run (flatKey sgOpen [1]) (alruOpenBind sgOpen) (Alru.init 4)
+      openNorm true 0 [1] [] [] ⟨[1], [(10, 2)]⟩ ≠ openNorm true 0 [1] [] [] ⟨[1, 2002], []⟩ ∧
+      Alru.specClause (alruOpenRefKey sgOpen 0) (alruOpenBind sgOpen 0) 4 [⟨⟨[1], [(10, 2)]⟩, false⟩, ⟨⟨[1, 2002], []⟩, false⟩]
+        (Alru.run (flatKey sgOpen [1]) (alruOpenBind sgOpen 0) (Alru.init 4)
           [⟨⟨[1], [(10, 2)]⟩, false⟩, ⟨⟨[1, 2002], []⟩, false⟩]) = some .foreignValue := by decide
 
 /-- `openCallOK` cannot be dropped: `f(1, a=2)` (a parameter passed twice, TypeError in Python) gets the key of `f(1)` and
     is answered from the cache once `f(1)` is cached -/
 theorem C13_open_callOK_needed :
-    openCallOK sgOpen [1] ⟨[1], [(1, 2)]⟩ = false ∧
-      Alru.spec (alruOpenRefKey sgOpen) (alruOpenBind sgOpen) 4 [⟨⟨[1], []⟩, false⟩, ⟨⟨[1], [(1, 2)]⟩, false⟩]
-        (Alru.run (alruOpenKey sgOpen) (alruOpenBind sgOpen) (Alru.init 4)
+    openCallOK sgOpen 0 [1] ⟨[1], [(1, 2)]⟩ = false ∧ openOutside sgOpen 0 [1] ⟨[1], [(1, 2)]⟩ = true ∧
+      Alru.spec (alruOpenRefKey sgOpen 0) (alruOpenBind sgOpen 0) 4 [⟨⟨[1], []⟩, false⟩, ⟨⟨[1], [(1, 2)]⟩, false⟩]
+        (Alru.run (alruOpenKey sgOpen) (alruOpenBind sgOpen 0) (Alru.init 4)
           [⟨⟨[1], []⟩, false⟩, ⟨⟨[1], [(1, 2)]⟩, false⟩]) = false := by decide
+
+/-! ## positional-only parameters: the property is FALSE of the code as it is (OPEN FINDING) -/
+
+/-- `def g(a, /, **opts)` (a = 1), one positional-only parameter -/
+def sgPo : Sig := ⟨[1], [], [], [], false⟩
+/-- `def h(a, b=0, /, c=0, **opts)` (a = 1, b = 2, c = 3), two positional-only parameters -/
+def sgPo2 : Sig := ⟨[1, 2, 3], [0, 0], [], [], false⟩
+/-- a method `def m(self, a, /, **opts)` -/
+def sgPoM : Sig := ⟨[9, 1], [], [], [], false⟩
+
+/-- OPEN FINDING (alru_cache and acached_per_instance, default key).  `g(1, a=2)`, `g(1, a=3)` and `g(1)` are three VALID
+    calls of `def g(a, /, **opts)` (PEP 570: the keyword lands in `**opts`) with three different normalised arguments, and
+    the key as written is the same for all three (get_args_tuple drops a leftover keyword whose name is in arg_names): the
+    second and the third call receive the first call's value and the observer rejects the model's own run with
+    `foreign-value`.  `h(1, b=5)` gets the key of `h(1, 5)` (the keyword is taken for the parameter) and `h(1, 0, b=5)`, the
+    same normalised arguments as `h(1, b=5)`, another key: the body runs again, `hit-ran-body`.  The same through
+    acached_per_instance (`o.m(1, a=2)`, `o.m(1, a=3)`). -/
+theorem C13_open_posonly_counterexample :
+    -- three valid calls, pairwise different normalised arguments, one key
+    (openNorm false 1 [1] [] [] ⟨[1], [(1, 2)]⟩ = some ⟨[1], [], [(1, 2)]⟩ ∧
+     openNorm false 1 [1] [] [] ⟨[1], [(1, 3)]⟩ = some ⟨[1], [], [(1, 3)]⟩ ∧
+     openNorm false 1 [1] [] [] ⟨[1], []⟩ = some ⟨[1], [], []⟩) ∧
+    (openKey sgPo [1] ⟨[1], [(1, 2)]⟩ = openKey sgPo [1] ⟨[1], [(1, 3)]⟩ ∧
+     openKey sgPo [1] ⟨[1], [(1, 2)]⟩ = openKey sgPo [1] ⟨[1], []⟩) ∧
+    (Alru.run (alruOpenKey sgPo) (alruOpenBind sgPo 1) (Alru.init 4)
+        [⟨⟨[1], [(1, 2)]⟩, false⟩, ⟨⟨[1], [(1, 3)]⟩, false⟩, ⟨⟨[1], []⟩, false⟩]).map (fun o => (o.res, o.runs)) =
+      [(.ok ⟨1, [1, 0, 1, 2]⟩, 1), (.ok ⟨1, [1, 0, 1, 2]⟩, 1), (.ok ⟨1, [1, 0, 1, 2]⟩, 1)] ∧
+    Alru.specClause (alruOpenRefKey sgPo 1) (alruOpenBind sgPo 1) 4 [⟨⟨[1], [(1, 2)]⟩, false⟩, ⟨⟨[1], [(1, 3)]⟩, false⟩]
+      (Alru.run (alruOpenKey sgPo) (alruOpenBind sgPo 1) (Alru.init 4)
+        [⟨⟨[1], [(1, 2)]⟩, false⟩, ⟨⟨[1], [(1, 3)]⟩, false⟩]) = some .foreignValue ∧
+    -- h(1, b=5) then h(1, 5): the second call receives (1, 0, 0, {b: 5})
+    Alru.specClause (alruOpenRefKey sgPo2 2) (alruOpenBind sgPo2 2) 4 [⟨⟨[1], [(2, 5)]⟩, false⟩, ⟨⟨[1, 5], []⟩, false⟩]
+      (Alru.run (alruOpenKey sgPo2) (alruOpenBind sgPo2 2) (Alru.init 4)
+        [⟨⟨[1], [(2, 5)]⟩, false⟩, ⟨⟨[1, 5], []⟩, false⟩]) = some .foreignValue ∧
+    -- h(1, b=5) then h(1, 0, b=5): the same normalised arguments, two keys, the body runs twice
+    (openNorm false 2 [1, 2, 3] [] [(2, 0), (3, 0)] ⟨[1], [(2, 5)]⟩ =
+       openNorm false 2 [1, 2, 3] [] [(2, 0), (3, 0)] ⟨[1, 0], [(2, 5)]⟩ ∧
+     openKey sgPo2 [1, 2, 3] ⟨[1], [(2, 5)]⟩ ≠ openKey sgPo2 [1, 2, 3] ⟨[1, 0], [(2, 5)]⟩) ∧
+    Alru.specClause (alruOpenRefKey sgPo2 2) (alruOpenBind sgPo2 2) 4 [⟨⟨[1], [(2, 5)]⟩, false⟩, ⟨⟨[1, 0], [(2, 5)]⟩, false⟩]
+      (Alru.run (alruOpenKey sgPo2) (alruOpenBind sgPo2 2) (Alru.init 4)
+        [⟨⟨[1], [(2, 5)]⟩, false⟩, ⟨⟨[1, 0], [(2, 5)]⟩, false⟩]) = some .hitRanBody ∧
+    -- acached_per_instance: o.m(1, a=2) then o.m(1, a=3)
+    PerInst.specClause (perInstOpenRefKey sgPoM 1) (perInstOpenBind sgPoM 1)
+      [.call 0 ⟨[1], [(1, 2)]⟩ false false, .call 0 ⟨[1], [(1, 3)]⟩ false false]
+      (PerInst.run (perInstOpenKey sgPoM) (perInstOpenBind sgPoM 1) PerInst.init
+        [.call 0 ⟨[1], [(1, 2)]⟩ false false, .call 0 ⟨[1], [(1, 3)]⟩ false false]) = some .foreignValue ∧
+    -- all of these calls are outside `openCallOK` (and inside the property: Python binds them)
+    openCallOK sgPo 1 [1] ⟨[1], [(1, 2)]⟩ = false ∧ openOutside sgPo 1 [1] ⟨[1], [(1, 2)]⟩ = false := by decide
+
+/-- NOT the code: the key of proposed-fixes/C13-posonly-cache-key.diff for a function with positional-only parameters
+    and `**opts` - `get_args_tuple` sees only the keywords that can bind a parameter (`kwBinding`), the others (unknown
+    names and names of positional-only parameters) form a third component -/
+def repairedKey (s : Sig) (po : Nat) (pos : List Name) (c : Call) : Option Key :=
+  (getArgsTupleE (c.args.take pos.length) (kwBinding po pos c.kwargs) (pos ++ s.kwonly) (kwargsDefaults s)).map
+    fun t1 => pairKey t1 (pairKey ((c.args.drop pos.length).map argElem)
+      ((optsOf (pos.drop po ++ s.kwonly) c.kwargs).map pairElem))
+
+/-- the repaired key tells the witnesses of `C13_open_posonly_counterexample` apart and identifies the two spellings of
+    one call (a test on the witnesses, not a theorem about all calls) -/
+theorem C13_open_posonly_repaired_key :
+    repairedKey sgPo 1 [1] ⟨[1], [(1, 2)]⟩ ≠ repairedKey sgPo 1 [1] ⟨[1], [(1, 3)]⟩ ∧
+    repairedKey sgPo 1 [1] ⟨[1], [(1, 2)]⟩ ≠ repairedKey sgPo 1 [1] ⟨[1], []⟩ ∧
+    repairedKey sgPo2 2 [1, 2, 3] ⟨[1], [(2, 5)]⟩ ≠ repairedKey sgPo2 2 [1, 2, 3] ⟨[1, 5], []⟩ ∧
+    repairedKey sgPo2 2 [1, 2, 3] ⟨[1], [(2, 5)]⟩ = repairedKey sgPo2 2 [1, 2, 3] ⟨[1, 0], [(2, 5)]⟩ ∧
+    Alru.spec (alruOpenRefKey sgPo 1) (alruOpenBind sgPo 1) 4
+      [⟨⟨[1], [(1, 2)]⟩, false⟩, ⟨⟨[1], [(1, 3)]⟩, false⟩, ⟨⟨[1], []⟩, false⟩, ⟨⟨[1], [(1, 2)]⟩, false⟩]
+      (Alru.run (repairedKey sgPo 1 [1]) (alruOpenBind sgPo 1) (Alru.init 4)
+        [⟨⟨[1], [(1, 2)]⟩, false⟩, ⟨⟨[1], [(1, 3)]⟩, false⟩, ⟨⟨[1], []⟩, false⟩, ⟨⟨[1], [(1, 2)]⟩, false⟩]) = true := by decide
+
+/-- a keyword named `self` never reaches the wrapper (asynq's own callables take it for their first parameter): TypeError,
+    nothing runs - model and reference agree, `def f(a, **opts)`, `f(1, self=3)` -/
+example :
+    Alru.run (alruOpenKey ⟨[1], [], [], [], false⟩) (alruOpenBind ⟨[1], [], [], [], false⟩ 0) (Alru.init 4)
+      [⟨⟨[1], [(9, 3)]⟩, false⟩] = [⟨.raisedType, 0, 0⟩] ∧
+    alruOpenRefKey ⟨[1], [], [], [], false⟩ 0 ⟨[1], [(9, 3)]⟩ = none := by decide
 
 /-! ## non-vacuity -/
 
 /-- `def f(a, *rest, k=0, **opts)`: `f(1, x=2)` miss, `f(1, ('x', 2))` miss, `f(x=2, a=1)` hit on the first,
     `f(1, ('x', 2), x=2)` a third key, `f(1, ('x', 2))` hit on the second; `f()` TypeError -/
 example :
-    (Alru.run (alruOpenKey ⟨[1], [], [4], [(4, 0)], true⟩) (alruOpenBind ⟨[1], [], [4], [(4, 0)], true⟩) (Alru.init 4)
+    (Alru.run (alruOpenKey ⟨[1], [], [4], [(4, 0)], true⟩) (alruOpenBind ⟨[1], [], [4], [(4, 0)], true⟩ 0) (Alru.init 4)
       [⟨⟨[1], [(10, 2)]⟩, false⟩, ⟨⟨[1, 2002], []⟩, false⟩, ⟨⟨[], [(10, 2), (1, 1)]⟩, false⟩, ⟨⟨[1, 2002], [(10, 2)]⟩, false⟩,
        ⟨⟨[1, 2002], []⟩, false⟩, ⟨⟨[], []⟩, false⟩]).map (fun o => (o.res, o.runs)) =
       [(.ok ⟨1, [1, 0, 0, 10, 2]⟩, 1), (.ok ⟨2, [1, 0, 1, 2002]⟩, 2), (.ok ⟨1, [1, 0, 0, 10, 2]⟩, 2),
@@ -128,7 +201,7 @@ example :
 
 /-- a method `def m(self, a, **opts)` (no `*rest`): `o.m(0, x=1)` / `o.m(0)` / `o.m(a=0, x=1)` / `o.m(0, z=1, x=1)` -/
 example :
-    (PerInst.run (perInstOpenKey ⟨[9, 1], [], [], [], false⟩) (perInstOpenBind ⟨[9, 1], [], [], [], false⟩) PerInst.init
+    (PerInst.run (perInstOpenKey ⟨[9, 1], [], [], [], false⟩) (perInstOpenBind ⟨[9, 1], [], [], [], false⟩ 0) PerInst.init
       [.call 0 ⟨[0], [(10, 1)]⟩ false false, .call 0 ⟨[0], []⟩ false false, .call 0 ⟨[], [(10, 1), (1, 0)]⟩ false false,
        .call 0 ⟨[0], [(11, 1), (10, 1)]⟩ false false]).map (fun o => (o.res, o.runs)) =
       [(.ok ⟨1, [0, 0, 10, 1]⟩, 1), (.ok ⟨2, [0, 0]⟩, 2), (.ok ⟨1, [0, 0, 10, 1]⟩, 2), (.ok ⟨3, [0, 0, 10, 1, 11, 1]⟩, 3)] := by
